@@ -76,11 +76,33 @@ func (m *Mast) loadPersisted(ctx context.Context, l string) (*mastNode, error) {
 	if m.debug {
 		fmt.Printf("loaded node %s->%v\n", l, node)
 	}
-	validateNode(ctx, &node, m)
+	err = checkLoadedNode(&node, l, m)
+	if err != nil {
+		return nil, err
+	}
 	if m.nodeCache != nil {
 		m.nodeCache.Add(cacheKey, &node)
 	}
 	return &node, nil
+}
+
+// checkLoadedNode is validateNode for nodes that come from the store: a
+// node that does not fit the configuration is an error, not a panic.
+func checkLoadedNode(node *mastNode, l string, m *Mast) error {
+	if len(node.Value) != len(node.Key) || len(node.Link) != len(node.Key)+1 {
+		return fmt.Errorf("node %s is malformed: %d keys, %d values, %d links",
+			l, len(node.Key), len(node.Value), len(node.Link))
+	}
+	for i := 0; i+1 < len(node.Key); i++ {
+		cmp, err := m.keyOrder(node.Key[i], node.Key[i+1])
+		if err != nil {
+			return fmt.Errorf("keyCompare: %w", err)
+		}
+		if cmp >= 0 {
+			return fmt.Errorf("node %s has keys out of order; ensure using same key order as source", l)
+		}
+	}
+	return nil
 }
 
 func unmarshalNode(m *Mast, nodeBytes []byte, l string, node *mastNode) error {
